@@ -49,21 +49,41 @@ def run(pid, tier, seed, replay=None):
         total_eval = 0
         for v in variants:
             exe = vlib.build_driver("eval_driver", v)
-            out = os.path.join(wd, "obs-%s.ndjson" % v)
-            rc, _, err, wall = vlib.run_driver(exe, [cases, str(seed), str(ncompose), str(maxdim)], stdout_path=out,
-                                               timeout=3000)
-            rows = []
-            try:
-                rows = vlib.read_ndjson(out)
-            except ValueError:
-                pass
-            summ = [r for r in rows if r.get("kind") == "summary"]
-            if rc != 0 or not summ:
-                # the library crashed / tripped a sanitizer / hung while evaluating a generated case
-                ck.violation({"class": "crash", "variant": v, "rc": rc},
-                             {"what": "evaluation driver did not finish", "rc": rc, "stderr": err[-3000:]})
+            # the driver is single-threaded: run it as shards in parallel (disjoint 1-D cases, own share of the compositions)
+            nshards = 4 if tier == "quick" else 12
+            import concurrent.futures
+            def one(k):
+                out = os.path.join(wd, "obs-%s-%d.ndjson" % (v, k))
+                rc, _, err, wall = vlib.run_driver(exe, [cases, str(seed), str(ncompose), str(maxdim), str(k), str(nshards)], stdout_path=out, timeout=3300)
+                rows = []
+                try:
+                    rows = vlib.read_ndjson(out)
+                except ValueError:
+                    pass
+                return rc, err, wall, rows
+            with concurrent.futures.ThreadPoolExecutor(nshards) as ex:
+                parts = list(ex.map(one, range(nshards)))
+            rows, summ, wall, failed = [], [], 0.0, False
+            for k, (rc, err, w, rws) in enumerate(parts):
+                sm = [r for r in rws if r.get("kind") == "summary"]
+                wall = max(wall, w)
+                if rc != 0 or not sm:
+                    # the library crashed / tripped a sanitizer / hung while evaluating a generated case
+                    ck.violation({"class": "crash", "variant": v, "rc": rc},
+                                 {"what": "evaluation driver did not finish (shard %d of %d)" % (k, nshards), "rc": rc, "stderr": err[-3000:]})
+                    failed = True
+                    continue
+                rows += rws
+                summ += sm
+            if failed or not summ:
                 continue
-            s = summ[0]
+            s = {"cases": summ[0]["cases"], "evaluations": sum(x["evaluations"] for x in summ), "per_api": {}, "mismatch_classes": {},
+                 "skipped_float_overflow": sum(x.get("skipped_float_overflow", 0) for x in summ)}
+            for x in summ:
+                for kk, n in x["per_api"].items():
+                    s["per_api"][kk] = s["per_api"].get(kk, 0) + n
+                for kk, n in (x.get("mismatch_classes") or {}).items():
+                    s["mismatch_classes"][kk] = s["mismatch_classes"].get(kk, 0) + n
             mine = [r for r in rows if r.get("kind") != "summary" and KINDS[pid](r)]
             apis = {k: n for k, n in s["per_api"].items()}
             total_eval += sum(apis.values())
